@@ -1,2 +1,63 @@
-(* placeholder *)
-let () = Registry.register "footprint" (fun _ -> ())
+(* driver for FootprintModel (C15): prints the DECLARED footprint tables, one line per
+   (type, function, statement label, location, access kind, guard), tab separated:
+     ROW <type> <func> <stmt> <loc> <kind> <guard>      rows of all_tables
+     PINNED <table> <type> <func> <stmt> <loc> <kind> <guard>   rows of the pinned (refuted) tables
+     DISC <type> <loc> <discipline>                     what `classify` computes per location
+     DISCIPLINED <type> true|false                      `disciplined` per table (extracted checker)
+     CTOR <Type.method>                                 constructor-only helper methods
+   Part of the trusted driver (printing only). *)
+let str (s : String0.string) : string =
+  let b = Buffer.create 64 in
+  let rec go (s : String0.string) =
+    match s with
+    | String0.EmptyString -> ()
+    | String0.String (Ascii.Ascii (b0, b1, b2, b3, b4, b5, b6, b7), r) ->
+      let bit x k = if x then 1 lsl k else 0 in
+      Buffer.add_char b (Char.chr (bit b0 0 + bit b1 1 + bit b2 2 + bit b3 3 + bit b4 4 + bit b5 5 + bit b6 6 + bit b7 7));
+      go r
+  in
+  go s; Buffer.contents b
+
+let clean s = String.map (fun c -> if c = '\t' || c = '\n' then ' ' else c) s
+
+let kind (k : FootprintModel.akind) = match k with
+  | FootprintModel.KRead -> "read" | FootprintModel.KWrite -> "write" | FootprintModel.KARead -> "aread"
+  | FootprintModel.KAWrite -> "awrite" | FootprintModel.KARmw -> "armw"
+  | FootprintModel.KSync o -> "sync:" ^ str o | FootprintModel.KDelegate o -> "delegate:" ^ str o
+
+let mode (m : HB.mode) = match m with HB.Excl -> "E" | HB.Shared -> "S"
+
+let guard (g : FootprintModel.guard) = match g with
+  | FootprintModel.GNone -> "none" | FootprintModel.GConst -> "const"
+  | FootprintModel.GLock (l, m) -> "lock:" ^ str l ^ ":" ^ mode m
+  | FootprintModel.GPubBefore o -> "pub-before:" ^ str o
+  | FootprintModel.GPubAfter o -> "pub-after:" ^ str o
+
+let disc (d : FootprintModel.discipline option) = match d with
+  | None -> "NONE"
+  | Some FootprintModel.DAtomic -> "atomic" | Some FootprintModel.DConst -> "const"
+  | Some (FootprintModel.DLocked l) -> "locked:" ^ str l | Some FootprintModel.DPublished -> "published"
+  | Some (FootprintModel.DInitLocked l) -> "init-locked:" ^ str l
+
+let row prefix (r : FootprintModel.row) =
+  print_endline (String.concat "\t" (prefix @ [str r.FootprintModel.r_type; str r.FootprintModel.r_func;
+    clean (str r.FootprintModel.r_stmt); str r.FootprintModel.r_loc; kind r.FootprintModel.r_kind; guard r.FootprintModel.r_guard]))
+
+let run _ =
+  List.iter (fun (name, t) ->
+      List.iter (row ["ROW"]) t;
+      let locs = List.sort_uniq compare (List.map str (FootprintModel.mem_locs t)) in
+      List.iter (fun (r : FootprintModel.row) -> ignore r) t;
+      List.iter (fun x ->
+          (* find the Coq string of this location again: classify takes the Coq string *)
+          let cx = List.find (fun c -> str c = x) (FootprintModel.mem_locs t) in
+          print_endline (String.concat "\t" ["DISC"; str name; x; disc (FootprintModel.classify t cx)])) locs;
+      print_endline (String.concat "\t" ["DISCIPLINED"; str name; string_of_bool (FootprintModel.disciplined t)]))
+    FootprintModel.all_tables;
+  List.iter (row ["PINNED"; "cow_pinned_table"]) FootprintModel.cow_pinned_table;
+  List.iter (row ["PINNED"; "cond_pinned_table"]) FootprintModel.cond_pinned_table;
+  print_endline (String.concat "\t" ["DISCIPLINED"; "cow_pinned_table"; string_of_bool (FootprintModel.disciplined FootprintModel.cow_pinned_table)]);
+  print_endline (String.concat "\t" ["DISCIPLINED"; "cond_pinned_table"; string_of_bool (FootprintModel.disciplined FootprintModel.cond_pinned_table)]);
+  List.iter (fun c -> print_endline ("CTOR\t" ^ str c)) FootprintModel.ctor_only
+
+let () = Registry.register "footprint" run
